@@ -7,6 +7,7 @@ import (
 	"net"
 	"os"
 	"path/filepath"
+	"runtime"
 	"sort"
 	"strings"
 	"syscall"
@@ -508,6 +509,69 @@ func TestC18(t *testing.T) {
 			c.Max("max_tree_depth", int64(depth))
 			compareFS(c, st, st.LinkSystem(false), linkCid(l), root)
 			c.Sig(fmt.Sprintf("deep-chain|%s", sizeClass(depth)), true)
+		})
+	}
+	// a tree that belongs to somebody else: the importing user may read every file and list every
+	// directory but owns none of them (an ordinary user taking in /usr/share/doc). The harness runs as
+	// root, which owns everything it creates, so the importing goroutine is pinned to its thread and
+	// that thread's effective user is dropped for the duration of the import
+	for i := 0; i < r.Pick(3, 20); i++ {
+		i := i
+		r.Case(fmt.Sprintf("foreign-owned/%d", i), map[string]any{"tree": i, "importing_uid": 65534}, func(c *mon.Case) {
+			if os.Geteuid() != 0 {
+				c.Count("skipped_not_root", 1)
+				return
+			}
+			dir := tmpRoot(c)
+			defer os.RemoveAll(dir)
+			os.Chmod(dir, 0o755)
+			root := filepath.Join(dir, "root")
+			os.Mkdir(root, 0o755)
+			stt := &fsStats{symKinds: map[string]bool{}}
+			budget := 20 + c.Rand().Intn(40)
+			makeFSTree(c.Rand(), root, 0, stt, &budget)
+			// everything world-readable and -searchable, nothing owned by the importer
+			filepath.Walk(root, func(p string, info os.FileInfo, err error) error {
+				if err == nil && info.Mode()&os.ModeSymlink == 0 {
+					if info.IsDir() {
+						os.Chmod(p, 0o755)
+					} else {
+						os.Chmod(p, 0o644)
+					}
+				}
+				return nil
+			})
+			st := store.New()
+			var l ipld.Link
+			var err error
+			var dropErr, restoreErr syscall.Errno
+			ok := c.Guard("BuildUnixFSRecursive as another user", func() {
+				runtime.LockOSThread()
+				defer runtime.UnlockOSThread()
+				none := ^uintptr(0)
+				if _, _, dropErr = syscall.RawSyscall(syscall.SYS_SETRESUID, none, 65534, none); dropErr != 0 {
+					return
+				}
+				defer func() {
+					_, _, restoreErr = syscall.RawSyscall(syscall.SYS_SETRESUID, none, 0, none)
+				}()
+				l, _, err = builder.BuildUnixFSRecursive(root, st.LinkSystem(false))
+			})
+			if dropErr != 0 || restoreErr != 0 {
+				c.Harness("changing the thread's effective uid: %v / %v", dropErr, restoreErr)
+				return
+			}
+			if !ok {
+				return
+			}
+			c.Count("trees", 1)
+			c.Count("trees_imported_as_non_owner", 1)
+			if err != nil {
+				c.Violation("C18|import-error|foreign-owned", "a tree of %d files, %d dirs, %d symlinks that the importing user (uid 65534) can read but does not own: %v", stt.files, stt.dirs, stt.symlinks, err)
+				return
+			}
+			compareFS(c, st, st.LinkSystem(false), linkCid(l), root)
+			c.Sig("foreign-owned", stt.files >= 1)
 		})
 	}
 	r.Case("roots", map[string]any{"roots": "file, empty file, symlink, dangling symlink, empty dir, fifo"}, func(c *mon.Case) {
